@@ -280,7 +280,16 @@ def e3_drive(run, acc, plan, shapes=None, label="E3"):
             sp = run.fresh("shapes", ".json")
             json.dump(shapes, open(sp, "w"))
             cmd += ["--shapes", sp]
-        p = vlib.sh(cmd, timeout=3000)
+        p = vlib.sh(cmd, timeout=3000, check=False)
+        if p.returncode != 0:
+            # the driver process ended abnormally (the library aborted it: a stack overflow in inspect(), say).  When failures of
+            # this run are already on record (E2 reports such a crash with the call that was running), they stand and this group
+            # of traces is skipped; otherwise it is a tool error as before
+            if acc.fails:
+                acc.notes.setdefault("e3_driver_ended_abnormally", []).append({"n": n, "status": p.returncode, "profiles": [q["profile"] for q in ps]})
+                tid0 += len(ps)
+                continue
+            raise ToolError(f"command failed ({p.returncode}): {' '.join(cmd)[:300]}\n{p.stdout[-3000:]}")
         metas = json.loads(p.stdout.strip().splitlines()[-1])
         tid0 += len(ps)
         v = vlib.judge(run, out, n, timeout=3000)
